@@ -114,6 +114,7 @@ impl GetTrailingTrivia for LastStmt {
 }
 impl UpdateTrivia for LastStmt {
     open spec fn same_sem_u(&self, r: &Self) -> bool { last_sem(*r) == last_sem(*self) }
+    open spec fn trivia_ok(&self, l: FormatTriviaType, t: FormatTriviaType, r: &Self) -> bool { true }
     #[verifier::external_body] fn update_trivia(&self, leading_trivia: FormatTriviaType, trailing_trivia: FormatTriviaType) -> (r: Self) { unimplemented!() }
 }
 """
